@@ -126,9 +126,16 @@ pub fn generate(g: &mut G, index: u64) -> Scenario {
     let cmd = g.pick(&[Work::CtxStop, Work::CtxRestart, Work::SelfUpgrade, Work::CtxRestart]);
     let via = g.pick(&keep);
     let id = g.id();
+    // ... sometimes after the handler has been busy for a few periods, so that interval ticks
+    // have piled up in the mailbox (bounded ones included) when the command is issued
+    let mut work = vec![];
+    if g.chance(1, 2) {
+        work.push(Work::Sleep(period * g.range(1, 4) + g.below(3)));
+    }
+    work.push(cmd);
     ops.push(match via {
-        HKind::Sender => Op::Send { h: 2, id, work: vec![cmd] },
-        k => Op::Call { h: slot_of(k), id, work: vec![cmd] },
+        HKind::Sender => Op::Send { h: 2, id, work },
+        k => Op::Call { h: slot_of(k), id, work },
     });
     ops.push(Op::Sleep(period * 3));
     // and the weak handles still upgrade afterwards (unless the command was stop)
